@@ -322,7 +322,11 @@ class _sender<Senders...>::type {
   static constexpr blocking_kind compute_blocking() noexcept {
     const _block::_enum enums[]{sender_traits<Senders>::blocking...};
 
-    return *std::max_element(std::begin(enums), std::end(enums));
+    auto m = *std::max_element(std::begin(enums), std::end(enums));
+    return (m == _block::_enum::never &&
+            enums[sizeof...(Senders) - 1] != _block::_enum::never)
+        ? _block::_enum::maybe
+        : m;
   }
 
 public:
